@@ -41,6 +41,13 @@ void rec_fault(const char *site) {
   if (kind == "hang") for (;;) ::pause();
 }
 
+bool rec_feature(const char *name) {
+  const char *f = std::getenv("RECSOLVER_FEATURES");
+  if (!f) return true;
+  std::string list = std::string(",") + f + ",";
+  return list.find(std::string(",-") + name + ",") == std::string::npos;
+}
+
 std::unique_ptr<BasicModelManager>
 CreateRecModelMgr(RecCommon &, Env &, pre::BasicValuePresolver *&);
 /// C20: log every registered link entry with its final extent (defined in recmodelmgr.cc)
@@ -216,6 +223,7 @@ void RecBackend::SetBasis(SolutionBasis basis) {
 }
 
 void RecBackend::AddPrimalDualStart(Solution sol0) {
+  if (!rec_feature("WARMSTART")) { BaseBackend::AddPrimalDualStart(sol0); return; }   // a driver without the feature
   auto mv = GetValuePresolver().PresolveSolution({sol0.primal, sol0.dual});
   auto x0 = mv.GetVarValues()();
   auto pi0 = mv.GetConValues()(CG_Linear);
@@ -225,6 +233,7 @@ void RecBackend::AddPrimalDualStart(Solution sol0) {
 }
 
 void RecBackend::AddMIPStart(ArrayRef<double> x0, ArrayRef<int> sparsity) {
+  if (!rec_feature("MIPSTART")) { BaseBackend::AddMIPStart(x0, sparsity); return; }
   std::string extra;
   if (std::getenv("RECSOLVER_C04")) {        // presolve as GurobiBackend::AddMIPStart does
     auto mv = GetValuePresolver().PresolveSolution({x0});
